@@ -1,5 +1,5 @@
 """Stub of xdsl.parser (only the names re-exported from it that code under contract uses)."""
-from xdsl.dialects.builtin import MemRefType
+from xdsl.dialects.builtin import *  # xdsl.parser re-exports the builtin names
 
 
 class AttrParser:
